@@ -15,6 +15,7 @@ import (
 	"encoding/hex"
 	"fmt"
 	"strconv"
+	"strings"
 
 	"elaverif/harness/hx"
 
@@ -53,6 +54,16 @@ func hashesHex(hs []common.Uint256) string {
 		b = append(b, h[:]...)
 	}
 	return hx.Hex(b)
+}
+
+func varLen(n int) int {
+	switch {
+	case n < 0xfd:
+		return 1
+	case n <= 0xffff:
+		return 3
+	}
+	return 5
 }
 
 func decodeTx(s string) auxpow.BtcTx {
@@ -162,6 +173,83 @@ func exec(t []string) string {
 			return "accept"
 		}
 		return "reject"
+	case "genaux": // genaux <hash> <chainID>: the real GenerateAuxPow (btcfaker.go), checked, and through the wire
+		h := hash1(t[1])
+		ap := auxpow.GenerateAuxPow(h)
+		script := "none"
+		if len(ap.ParCoinbaseTx.TxIn) > 0 {
+			script = hx.Hex(ap.ParCoinbaseTx.TxIn[0].SignatureScript)
+		}
+		v := ap.Check(&h, atoi(t[2]))
+		buf := new(bytes.Buffer)
+		if err := ap.Serialize(buf); err != nil {
+			return "unserializable"
+		}
+		var dec auxpow.AuxPow
+		if err := dec.Deserialize(bytes.NewReader(buf.Bytes())); err != nil {
+			return "undecodable"
+		}
+		h2 := hash1(t[1])
+		v2 := dec.Check(&h2, atoi(t[2]))
+		h3 := hash1(t[1])
+		h3[7] ^= 0x10
+		v3 := dec.Check(&h3, atoi(t[2]))
+		shape := fmt.Sprintf("%d/%d/%d/%d", len(ap.AuxMerkleBranch), ap.AuxMerkleIndex, len(ap.ParCoinBaseMerkle), ap.ParMerkleIndex)
+		rootOK := ap.ParBlockHeader.MerkleRoot == ap.ParCoinbaseTx.Hash()
+		return fmt.Sprintf("%v %v %v %s %s %v", v, v2, v3, shape, script, rootOK)
+	case "codec":
+		// codec <check tokens of a proof> <version> <previous> <timestamp> <bits> <nonce> <parentHash>:
+		// AuxPow / BtcTx / BtcHeader Serialize → Deserialize → Serialize is the identity and keeps every field
+		tx := decodeTx(t[10])
+		ap := auxpow.AuxPow{
+			AuxMerkleBranch:   hashes(t[7]),
+			AuxMerkleIndex:    atoi(t[8]),
+			ParCoinbaseTx:     tx,
+			ParCoinBaseMerkle: hashes(t[4]),
+			ParMerkleIndex:    atoi(t[5]),
+		}
+		ap.ParBlockHeader = auxpow.BtcHeader{Version: uint32(atoi(t[11])), Previous: hash1(t[12]), MerkleRoot: hash1(t[6]),
+			Timestamp: uint32(atoi(t[13])), Bits: uint32(atoi(t[14])), Nonce: uint32(atoi(t[15]))}
+		ap.ParentHash = hash1(t[16])
+		b1 := new(bytes.Buffer)
+		if err := ap.Serialize(b1); err != nil {
+			return "unserializable"
+		}
+		var dec auxpow.AuxPow
+		if err := dec.Deserialize(bytes.NewReader(b1.Bytes())); err != nil {
+			return "undecodable"
+		}
+		b2 := new(bytes.Buffer)
+		dec.Serialize(b2)
+		if !bytes.Equal(b1.Bytes(), b2.Bytes()) {
+			return "reencode-differs"
+		}
+		if dec.ParBlockHeader != ap.ParBlockHeader || dec.ParentHash != ap.ParentHash ||
+			dec.ParMerkleIndex != int(uint32(ap.ParMerkleIndex)) || dec.AuxMerkleIndex != int(uint32(ap.AuxMerkleIndex)) ||
+			hashesHex(dec.AuxMerkleBranch) != t[7] || hashesHex(dec.ParCoinBaseMerkle) != t[4] {
+			return "fields-differ"
+		}
+		tb := new(bytes.Buffer)
+		dec.ParCoinbaseTx.Serialize(tb)
+		if hx.Hex(tb.Bytes()) != t[10] || dec.ParCoinbaseTx.Hash() != tx.Hash() {
+			return "coinbase-differs"
+		}
+		// the parent header on its own: 80 bytes, hash = double SHA-256 of them
+		hb := new(bytes.Buffer)
+		ap.ParBlockHeader.Serialize(hb)
+		var hd auxpow.BtcHeader
+		if err := hd.Deserialize(bytes.NewReader(hb.Bytes())); err != nil || hd != ap.ParBlockHeader || hb.Len() != 80 {
+			return "header-differs"
+		}
+		hh := ap.ParBlockHeader.Hash()
+		if !bytes.Equal(hh[:], sha256d(hb.Bytes())) {
+			return "header-hash-differs"
+		}
+		if len(b1.Bytes()) != len(hx.UnHex(t[10]))+32+varLen(len(ap.ParCoinBaseMerkle))+32*len(ap.ParCoinBaseMerkle)+4+
+			varLen(len(ap.AuxMerkleBranch))+32*len(ap.AuxMerkleBranch)+4+80 {
+			return "length-differs"
+		}
+		return "ok"
 	case "branch":
 		r := auxpow.GetMerkleRoot(hash1(t[1]), hashes(t[2]), atoi(t[3]))
 		return hex.EncodeToString(r[:])
@@ -222,6 +310,20 @@ var markerBytes = []byte{0xfa, 0xbe, 'm', 'm'}
 // (2) carry exactly one marker in the script BYTES, immediately followed by the reversed aux
 // root recomputed from this block hash, then size = 2^h and a nonce giving the slot.
 func oracle(t []string, out string) *hx.Violation {
+	if t[0] == "genaux" {
+		// a generated proof is accepted for its block (also after a trip through the wire) and for no other hash
+		f := strings.Fields(out)
+		if len(f) < 3 || f[0] != "true" || f[1] != "true" || f[2] != "false" {
+			return &hx.Violation{Kind: "generated-proof", Detail: "GenerateAuxPow(h) must be accepted for h (directly and after Serialize/Deserialize) and rejected for another hash"}
+		}
+		return nil
+	}
+	if t[0] == "codec" {
+		if out != "ok" {
+			return &hx.Violation{Kind: "codec-roundtrip", Detail: "AuxPow/BtcTx/BtcHeader serialisation round trip: " + out}
+		}
+		return nil
+	}
 	if t[0] == "checkseq" { // judged as the wire check of proof B
 		return oracle(append([]string{"checkw"}, t[4:]...), out)
 	}
@@ -537,6 +639,10 @@ func genFixed(g *hx.Gen) {
 func gen(g *hx.Gen) {
 	r := g.R
 	genFixed(g)
+	// the node's own proofs (pow.Service / btcfaker.go)
+	for i := 0; i < g.N(40, 1000); i++ {
+		g.Emit("genaux %s %d", hx.Hex(r.Bytes(32)), pickChain(r))
+	}
 	// GetExpectedIndex and GetMerkleRoot on their own
 	for i := g.N(2000, 100000); i > 0; i-- {
 		h := r.Intn(34)
@@ -622,6 +728,8 @@ func gen(g *hx.Gen) {
 			g.Emit("checkseq %s %d %s %s", hex.EncodeToString(p.hash[:]), p.chainID, p.wire(), q2.tokens())
 			g.Emit("checkseq %s %d %s %s", hex.EncodeToString(p.hash[:]), p.chainID, p.wire(), p.tokens())
 		}
+		// (de)serialisation of the whole proof with a random parent header
+		g.Emit("codec %s %d %s %d %d %d %s", p.tokens(), uint32(r.U64()), hx.Hex(r.Bytes(32)), uint32(r.U64()), uint32(r.U64()), uint32(r.U64()), hx.Hex(r.Bytes(32)))
 		// through the wire format: indexes travel as uint32
 		p.emitOp(g, "checkw")
 		{
